@@ -533,3 +533,38 @@ def explore(tier, shard, nshards, agg, prop_id):
         if i % nshards != shard:
             continue
         explore_library_item(h, nm, it, agg, prop_id)
+
+
+def replay(case, mode):
+    """re-execute one recorded history without the explorer: case = [goal text, [step json, ...], last step json]
+    (library cases: ['lib', theory, item, k] are replayed by explore_library_item up to step k)"""
+    from mc.engine import Agg
+    h = Harness(mode)
+    if case and case[0] == 'lib':
+        agg = Agg()
+        its = [(nm, it) for nm, it in library_items('thorough') if nm == case[1] and it['name'] == case[2]]
+        for nm, it in its:
+            explore_library_item(h, nm, it, agg, mode)
+        for v in agg.violations:
+            print(json.dumps(v['violation'], indent=1)[:3000])
+        return 1 if agg.violations else 0
+    goal = [g for g in GOALS if g[2] == case[0]]
+    if not goal:
+        print('unknown goal', case[0])
+        return 2
+    s = h.init_state(goal[0])
+    init_th = s.prf.items[-1].th
+    init_th = type(init_th)(init_th.prop, *init_th.hyps)
+    steps = list(case[1]) + [case[2]]
+    for i, st in enumerate(steps):
+        step = json.loads(st) if isinstance(st, str) else st
+        print('step %d: %s' % (i + 1, json.dumps(step)))
+        try:
+            h.apply(s, ('param', step))
+        except Exception as e:
+            print('   raises %s: %s' % (type(e).__name__, str(e)[:300]))
+            return 0 if i < len(steps) - 1 else 1
+        print(h.export(s) if hasattr(h, 'export') else s)
+    bad = h.invariants(s, init_th, steps)
+    print('invariants:', bad)
+    return 1 if bad else 0
